@@ -35,20 +35,21 @@ type Layout struct {
 }
 
 type Cfg struct {
-	Absolute         bool // root location is absolute (/w/api/root.json)
-	MaxObjects       int
-	AvoidUnwalked    bool // do not place references at the positions the loader never resolves (known finding)
-	NoDeep           bool
-	NoWholeFile      bool
-	NoChains         bool
-	ElementChains    bool // with NoChains: components may still be references to whole single-element files
-	NoExtension      bool // documents are named without a file extension
-	RelativeTwins    bool // twin element files also when the root location is relative (C16 open finding)
-	PathChains       bool // /a0 -> /a1 -> /p0: chains of path item references inside the root document
-	CallbackPathRefs bool // a callback's path item may be a reference to a path of the same document
-	AliasChains      bool // with NoChains: a root component may be a bare reference to an object component of another document
-	PercentSpellings bool // local references may spell a character of their fragment percent-encoded
-	NullEntries      bool // a null entry in encoding maps, sorted before the entry with references (the only map whose null entries stay nil after parsing)
+	Absolute           bool // root location is absolute (/w/api/root.json)
+	MaxObjects         int
+	AvoidUnwalked      bool // do not place references at the positions the loader never resolves (known finding)
+	NoDeep             bool
+	NoWholeFile        bool
+	NoChains           bool
+	ElementChains      bool // with NoChains: components may still be references to whole single-element files
+	NoExtension        bool // documents are named without a file extension
+	RelativeTwins      bool // twin element files also when the root location is relative (C16 open finding)
+	PathChains         bool // /a0 -> /a1 -> /p0: chains of path item references inside the root document
+	CallbackPathRefs   bool // a callback's path item may be a reference to a path of the same document
+	AliasChains        bool // with NoChains: a root component may be a bare reference to an object component of another document
+	PercentSpellings   bool // local references may spell a character of their fragment percent-encoded
+	CallbackFileCycles bool // a callback kept in a file of its own may refer to that file again from inside
+	NullEntries        bool // a null entry in encoding maps, sorted before the entry with references (the only map whose null entries stay nil after parsing)
 }
 
 type gen struct {
@@ -449,6 +450,19 @@ func (g *gen) elementFile(kind, from string, depth int) string {
 	}
 	g.elems[name] = M{} // reserve
 	g.elems[name] = g.object(kind, name, depth-1)
+	if kind == "callback" && g.cfg.CallbackFileCycles && g.chance(2, "cbfilecycle") {
+		// the operation inside the callback file has a callback of its own: the same file again
+		for _, v := range g.elems[name] {
+			if pi, ok := v.(M); ok {
+				for _, m := range []string{"get", "post"} {
+					if op, ok := pi[m].(M); ok {
+						op["callbacks"] = M{"again": M{"$ref": path.Base(name)}}
+						g.feat["cycle:callback-whole-file"]++
+					}
+				}
+			}
+		}
+	}
 	return name
 }
 
